@@ -242,7 +242,7 @@ define_function(string_deviation)
 
   size_t i;
 
-  for (i = 0; i < s->length; i++) sum += fabs(((double) s->c_string[i]) - mean);
+  for (i = 0; i < s->length; i++) sum += fabs(((double) (uint8_t) s->c_string[i]) - mean);
 
   return_float(sum / s->length);
 }
@@ -282,7 +282,7 @@ define_function(string_mean)
 
   SIZED_STRING* s = sized_string_argument(1);
 
-  for (i = 0; i < s->length; i++) sum += (double) s->c_string[i];
+  for (i = 0; i < s->length; i++) sum += (double) (uint8_t) s->c_string[i];
 
   return_float(sum / s->length);
 }
@@ -419,7 +419,7 @@ define_function(string_serial_correlation)
 
   for (i = 0; i < s->length; i++)
   {
-    sccun = (double) s->c_string[i];
+    sccun = (double) (uint8_t) s->c_string[i];
     scct1 += scclast * sccun;
     scct2 += sccun;
     scct3 += sccun * sccun;
@@ -428,7 +428,7 @@ define_function(string_serial_correlation)
 
   if (s->length > 0)
   {
-    scct1 += scclast * (double) s->c_string[0];
+    scct1 += scclast * (double) (uint8_t) s->c_string[0];
   }
   scct2 *= scct2;
 
@@ -547,7 +547,7 @@ define_function(string_monte_carlo_pi)
 
   for (i = 0; i < s->length; i++)
   {
-    monte[i % 6] = (unsigned int) s->c_string[i];
+    monte[i % 6] = (unsigned int) (uint8_t) s->c_string[i];
 
     if (i % 6 == 5)
     {
